@@ -147,16 +147,18 @@ func verifC01RenderMessageAndDetails(n *AlertNode, id, name string, t time.Time,
 
 // verifC01Cfg is the part of the alert node configuration that the property ranges over.
 type verifC01Cfg struct {
-	level   [4]bool // level[l]: a condition is configured for level l (1..3)
-	reset   [4]bool // reset[l]: a reset condition is configured for level l
-	sco     bool    // stateChangesOnly
-	ival    time.Duration
-	noRec   bool
-	all     bool
-	anon    bool // handlers on the node itself (anonymous topic)
-	topic   bool // user topic
-	history int64
-	augment int // 0 none, 1 all six tag/field options, 2 levelField+durationField, 3 idTag
+	level             [4]bool // level[l]: a condition is configured for level l (1..3)
+	reset             [4]bool // reset[l]: a reset condition is configured for level l
+	sco               bool    // stateChangesOnly
+	ival              time.Duration
+	noRec             bool
+	all               bool
+	anon              bool // handlers on the node itself (anonymous topic)
+	topic             bool // user topic
+	history           int64
+	augment           int // 0 none, 1 all six tag/field options, 2 levelField+durationField, 3 idTag
+	flap              bool
+	flapLow, flapHigh float64
 }
 
 var verifC01LevelNames = [4]string{"", "info", "warn", "crit"}
@@ -174,6 +176,9 @@ func verifC01Node(cfg verifC01Cfg, svc *verifC01AlertSvc, diag *verifNopDiag) *A
 		IsStateChangesOnly:       cfg.sco,
 		StateChangesOnlyDuration: cfg.ival,
 		AllFlag:                  cfg.all,
+		UseFlapping:              cfg.flap,
+		FlapLow:                  cfg.flapLow,
+		FlapHigh:                 cfg.flapHigh,
 	}
 	switch cfg.augment {
 	case 1:
@@ -303,7 +308,9 @@ func (r *verifC01Ref) newLevel(cond, reset [4]bool) alert.Level {
 func (r *verifC01Ref) step(l alert.Level, t int64) (emit bool, dur int64) {
 	prev := r.level
 	changed := l != prev
-	expired := !changed && r.cfg.ival != 0 && r.emitted && t-r.lastEmit >= int64(r.cfg.ival)
+	// interval elapsed since the last event (trivially so if there never was one; that
+	// can only happen when flap detection suppressed the events so far)
+	expired := !changed && r.cfg.ival != 0 && (!r.emitted || t-r.lastEmit >= int64(r.cfg.ival))
 	r.level = l
 	if !(l != alert.OK || changed) {
 		return false, 0
@@ -573,5 +580,107 @@ func VerifC01Batch(v *vrt.T) {
 		}
 	}
 	v.Assert(diag.errors == 0, "no evaluation errors logged")
+	v.Reach("end")
+}
+
+// ---------------------------------------------------------------------------------
+// H3: history length and flap detection
+// ---------------------------------------------------------------------------------
+
+var verifC01FlapThresholds = [][2]float64{{0.25, 0.5}, {0.1, 0.3}, {0.5, 0.9}}
+
+// VerifC01Flapping: flap detection on, history 2..5. The documentation does not define
+// the exact (weighted) percentage of state changes, so the flapping flag itself is taken
+// from the implementation and only its documented frame is asserted (a recorded history
+// without any state change has percentage 0: below every positive low threshold, never
+// above high). Decided relative to that flag: levels as documented; while not flapping
+// events are emitted exactly by the reference rule; while flapping no non-OK event is
+// sent (what happens to a recovery while flapping is undocumented and differs between
+// stream and batch form: not constrained); every event that is sent carries the level,
+// the time of the triggering point and duration = time since the ID last left OK.
+func VerifC01Flapping(v *vrt.T) {
+	k := v.Bound("points", 4)
+	cfg := verifC01ChooseCfg(v, false)
+	cfg.flap = true
+	cfg.history = int64(2 + v.Choose("history", v.Bound("histories", 4)))
+	th := verifC01FlapThresholds[v.Choose("thresholds", v.Bound("thresholds", 2))]
+	cfg.flapLow, cfg.flapHigh = th[0], th[1]
+	batch := v.Choose("form", 2) == 1
+	svc := &verifC01AlertSvc{}
+	diag := &verifNopDiag{}
+	an := verifC01Node(cfg, svc, diag)
+	dims, tags := verifC01Group()
+	state := an.newAlertState(tags)
+	ref := &verifC01Ref{cfg: cfg}
+	hist := make([]alert.Level, cfg.history) // recorded history, oldest first; starts all OK
+
+	t := v.Time("t0", verifT2020-32, verifT2020+32).UnixNano()
+	for i := 0; i < k; i++ {
+		if i > 0 {
+			t += int64(v.IntRange("dt", 0, 40))
+		}
+		fields, cond, reset := verifC01Fields(v, cfg, false, int64(i))
+		before := len(svc.events)
+		var msg edge.Message
+		var err error
+		if batch {
+			begin := edge.NewBeginBatchMessage("m", tags, false, time.Unix(0, t).UTC(), 1)
+			pts := []edge.BatchPointMessage{edge.NewBatchPointMessage(fields, tags, time.Unix(0, t).UTC())}
+			msg, err = state.BufferedBatch(edge.NewBufferedBatchMessage(begin, pts, edge.NewEndBatchMessage()))
+		} else {
+			msg, err = state.Point(edge.NewPointMessage("m", "db", "rp", dims, fields, tags, time.Unix(0, t).UTC()))
+		}
+		v.Assert(err == nil, "no error")
+		l := ref.newLevel(cond, reset)
+		v.Assert(state.currentLevel() == l, "level of the point is the documented one")
+
+		// documented frame of the flapping flag
+		hist = append(hist[1:], l)
+		steady := true
+		for _, h := range hist {
+			if h != l {
+				steady = false
+			}
+		}
+		flapping := state.flapping
+		if steady {
+			v.Assert(!flapping, "no state change in the recorded history: not flapping")
+		}
+
+		// reference step relative to the flapping flag
+		prev := ref.level
+		changed := l != prev
+		expired := !changed && cfg.ival != 0 && (!ref.emitted || t-ref.lastEmit >= int64(cfg.ival))
+		ref.level = l
+		if prev == alert.OK && l != alert.OK {
+			ref.leftOK = t
+		}
+		want := (l != alert.OK || changed) && !(cfg.sco && !changed && !expired)
+		got := len(svc.events) - before
+		v.Observe("step", int(l), flapping, got)
+		sent := false
+		if flapping && l == alert.OK {
+			// recovery while flapping: unconstrained, but never an event without a recovery
+			if !(want && !cfg.noRec) {
+				v.Assert(got == 0 && msg == nil, "an event reaches the handlers exactly when documented (unexpected event)")
+			}
+			sent = got > 0 || (want && cfg.noRec && batch)
+		} else if flapping {
+			v.Assert(got == 0 && msg == nil, "no non-OK event while flapping")
+		} else {
+			sent = want
+			if want && !(l == alert.OK && cfg.noRec) {
+				v.Assert(got == 2 && msg != nil, "an event reaches the handlers exactly when documented (missing or duplicated)")
+			} else {
+				v.Assert(got == 0 && msg == nil, "an event reaches the handlers exactly when documented (unexpected event)")
+			}
+		}
+		if sent {
+			ref.lastEmit, ref.emitted = t, true
+		}
+		if got > 0 {
+			verifC01CheckEvents(v, cfg, svc, before, true, l, t, t-ref.leftOK)
+		}
+	}
 	v.Reach("end")
 }
